@@ -2,35 +2,66 @@ import GqlProofs.ParserErrPos
 import GqlProofs.ParserLocal
 import GqlProofs.ParserSound
 import GqlProofs.ParserComplete
+import GqlProofs.ParserViable
+import GqlProofs.RecogniseSound
+import GqlModel.ParseBytes
 /-! # C18, syntax clause — where the parser reports a syntax error
 
 Clause: "for a syntax error the reported position falls within the first token at which the text stops being the
 beginning of any valid document".  In terms of the token-level model M (`GqlModel.Parser`, tied to the real parser
 on every run by the C03 harness, which compares the error OFFSET of `parser.Parse` with M's on every rejected
-case — green at /repo 75de65f, i.e. after the position repairs 4afb251, ad2148d, 39e3264, 75de65f):
+case), with `k = |toks| - left` the index of the token M blames:
 
 ```
--- FULL STATEMENT (not proved; see the gap below)
-theorem syntax_error_at_first_nonviable_token (toks eofPos pos) (h : parseToks toks eofPos = .error (.syntax pos false)) :
-    ∃ k, k ≤ toks.length ∧ pos = posAt (initState toks eofPos) k ∧
-      ViablePrefix (toks.take k) ∧ (k < toks.length → ¬ ViablePrefix (toks.take (k + 1)))
+-- FULL STATEMENT
+theorem syntax_error_at_first_nonviable_token (toks eofPos pos b l) (h : parseToks toks eofPos = .error (.syntax pos b l)) :
+    l ≤ toks.length ∧ pos = (match toks.drop (toks.length - l) with | t :: _ => t.start | [] => eofPos) ∧   -- (0) AT TOKEN k
+    (b = false → ViablePrefix (toks.take (toks.length - l))) ∧                                              -- (2) NOT EARLIER
+    (0 < l → ¬ ViablePrefix (toks.take (toks.length - l + 1)))                                              -- (1) NOT LATER
 ```
-(`bad = false` excludes parses that went through a malformed type reference, D-03b: there `parseType` accepts
-a non-viable prefix and the error, if any, surfaces at a later token — `type_reference_reports_no_error`.)
 
-Proved here, for the WHOLE grammar (executable and type-system definitions, every token list):
-* `syntax_error_at_token_start` — the reported offset is the start offset of one of the input's tokens, or the EOF
-  offset: never inside a token, never before the first or after the last token;
-* `value_error_at_token_start` — the same for `parser.ParseValue`;
-* `type_reference_reports_no_error` — `parseType` itself never reports a syntax error (the D-03b exclusion is exactly
-  the set of parses whose flag is raised);
-* `accepted_prefixes_viable`, `viablePrefix_take`, `syntax_error_not_document` — the easy directions around `ViablePrefix`.
+(2) carries the side condition `b = false` (the D-03b flag is down when the error is raised): after a malformed type
+reference that `parseType` let through, e.g. `query ( $ a : [ ) {`, the tokens before the blamed `{` are NOT the
+beginning of a document — the error surfaces late (`type_reference_reports_no_error`; C03 known finding
+`typeRefMalformed`).  (0) and (1) need no side condition: the leniency of `parseType` makes M accept too much, it never
+makes it reject, so a rejection of M is a rejection of the grammar, and locality is a statement about M alone.
 
-GAP: the two halves "tokens before the reported one form a viable prefix" (needs a completion for every parser
-context) and "with the reported token they do not" (needs: M's verdict up to token k depends only on tokens ≤ k+1,
-i.e. a look-ahead locality theorem for all 45 actions, fuel included) are NOT proved, for no fragment.  They are
-covered only by the C03 differential: stream (b) enumerates the viable-prefix tree of the real parser and checks, for
-every minimal dead prefix, that M reports the same offset. -/
+PROVED, for the WHOLE grammar (executable and type-system definitions) and every token list:
+* (0) `syntax_error_at_token_start`, `syntax_error_blames_token`, `value_error_at_token_start`;
+* (1) `syntax_error_not_later` (via `syntax_error_prefix_determined`: M's verdict up to its first error depends only on
+  the tokens up to the blamed one — a prefix-determinism theorem for all actions, fuel included, GqlProofs/ParserLocal.lean —
+  and `parser_complete`);
+* towards (2): `truncated_text_fails_only_at_eof` — M on the tokens before the blamed one either accepts or fails AT THE
+  END of input, nowhere before;  `certified_completion_viable` — whenever the executable completion of
+  `GqlModel/Grammar.lean` returns `some c` for a prefix, that prefix is viable (the answer is re-checked by the
+  recogniser, which is proved sound), hence `syntax_error_at_first_nonviable_token_certified`: the full statement for
+  every input on which the certificate exists;
+* (0)+(1)+(2) for `parser.ParseValue` (the value sub-grammar: variables, scalars, enums, lists, objects, const and
+  non-const): `value_error_at_first_nonviable_token`;
+* `type_reference_reports_no_error`, `accepted_prefixes_viable`, `viablePrefix_take`, `syntax_error_not_document`;
+* the byte-level composition `bytes_syntax_error_not_later` (lexer model ∘ parser model, `GqlModel.parseBytes`).
+
+GAP — (2) NOT EARLIER for documents, as a theorem for all inputs:
+```
+theorem syntax_error_not_earlier (toks eofPos pos l) (h : parseToks toks eofPos = .error (.syntax pos false l)) :
+    ViablePrefix (toks.take (toks.length - l))
+```
+By `truncated_text_fails_only_at_eof` it is equivalent to: "if M fails at the END of `ts` (left = 0, flag down) then `ts` is
+viable", i.e. every parser state reached at end of input has a completion.  Proved for values
+(`parseValueLiteral_cpl`, GqlProofs/ParserViable.lean, with the generic loop lemma `many_cpl` and the append-frame
+lemmas `DValue.app` …).  MISSING for the rest (executable grammar AND type-system definitions alike):
+  (a) append-frame lemmas for the other 40 derivation relations — unlike `DValue` they carry longest-match side
+      conditions on absent optionals ("no `(` follows", "no `@` follows", "no `{` follows"), so appending tokens is only
+      sound when the first appended token is outside the FIRST set of the absent optional: each lemma needs a look-ahead
+      hypothesis and each use a FOLLOW-set fact;
+  (b) a completion lemma `m σ = .error (.syntax _ _ 0) → ∃ comp, ∀ X (X's head outside FIRST-of-what-was-skipped), D …`
+      for each of arguments, directives, type references, variable definitions, selection sets (fuel-indexed, mutual),
+      operations, fragments, the 11 type-system definition forms and `parseDefinitions`;
+  (c) the same through `parseType` with the flag down (completions must avoid D-03b shapes).
+What stands in for it meanwhile: the executable `completeDoc`/`certifiedCompletion`; the C03 harness demands, for EVERY
+rejected case of every stream (exhaustive token sequences to length 4, the reduced-alphabet viable-prefix tree, contexts,
+generated documents, mutations, malformed-lexeme cases) whose flag is down, that the certificate exists — so (2) is PROVED for each such input —
+and that the real parser accepts the text before the reported token followed by the completion. -/
 namespace GqlModel.Parser
 open GqlModel GqlModel.Grammar
 
@@ -82,17 +113,133 @@ WITHOUT any side condition on D-03b: the leniency of `parseType` makes M accept 
 /-- prefix determinism: M rejects every token list that starts with `toks[0..k]` exactly as it rejects `toks` -/
 theorem syntax_error_prefix_determined (toks : List Token) (eofPos pos : Nat) (b : Bool) (l : Nat)
     (h : parseToks toks eofPos = .error (.syntax pos b l)) (hl : 0 < l) (rest : List Token) (eofPos' : Nat) :
-    ∃ l', parseToks (toks.take (toks.length - l + 1) ++ rest) eofPos' = .error (.syntax pos b l') :=
-  parseToks_error_local h hl rest eofPos'
+    ∃ l', parseToks (toks.take (toks.length - l + 1) ++ rest) eofPos' = .error (.syntax pos b l') ∧
+      (toks.take (toks.length - l + 1) ++ rest).length - l' = toks.length - l :=
+  let ⟨l', g, hidx, _⟩ := parseToks_error_local h hl rest eofPos'
+  ⟨l', g, hidx⟩
 
 /-- **not later**: no continuation of the prefix that INCLUDES the blamed token is a document of the grammar -/
 theorem syntax_error_not_later (toks : List Token) (eofPos pos : Nat) (b : Bool) (l : Nat)
     (h : parseToks toks eofPos = .error (.syntax pos b l)) (hl : 0 < l) :
     ¬ ViablePrefix (toks.take (toks.length - l + 1)) := by
   rintro ⟨rest, eofPos', d, hd⟩
-  obtain ⟨l', g⟩ := parseToks_error_local h hl rest eofPos'
+  obtain ⟨l', g, _, _⟩ := parseToks_error_local h hl rest eofPos'
   rw [parseToks_complete hd] at g
   cases g
+
+/-- the text cut right before the blamed token is rejected, if at all, only for ending too early: M blames its end (EOF)
+and nothing before — the first step towards NOT EARLIER -/
+theorem truncated_text_fails_only_at_eof (toks : List Token) (eofPos pos : Nat) (b : Bool) (l : Nat)
+    (h : parseToks toks eofPos = .error (.syntax pos b l)) (eofPos' pos' : Nat) (b' : Bool) (l' : Nat)
+    (h' : parseToks (toks.take (toks.length - l)) eofPos' = .error (.syntax pos' b' l')) : l' = 0 :=
+  parseToks_truncated h eofPos' pos' b' l' h'
+
+
+/-! ## NOT EARLIER: the tokens before the blamed one are the beginning of a document
+
+Proved for `parser.ParseValue`; for documents reduced to "failing at the end of input implies viable"
+(`truncated_text_fails_only_at_eof`) and proved for each input on which the executable completion certifies itself. -/
+
+/-- a certified completion proves the prefix viable (the recogniser that re-checks it is sound) -/
+theorem certified_completion_viable (pre c : List Token) (h : certifiedCompletion pre = some c) : ViablePrefix pre := by
+  unfold certifiedCompletion at h
+  split at h
+  · split at h
+    · rename_i hr
+      cases h
+      unfold recogniseToks at hr
+      cases hrun : run (recogniseFuel (pre ++ c)) (.nt .document) (pre ++ c) with
+      | fuel => simp [hrun] at hr
+      | no => simp [hrun] at hr
+      | rest r =>
+        simp only [hrun, Option.some.injEq, List.isEmpty_iff] at hr
+        subst hr
+        obtain ⟨d, hd⟩ := run_derivesDoc 0 (run_sound _ _ _ (.rest []) hrun)
+        exact ⟨c, 0, d, hd⟩
+    · cases h
+  · cases h
+
+/-- the full clause for every input on which the certificate exists (the C03 harness checks that it does on every
+rejected case it generates) -/
+theorem syntax_error_at_first_nonviable_token_certified (toks : List Token) (eofPos pos : Nat) (b : Bool) (l : Nat)
+    (h : parseToks toks eofPos = .error (.syntax pos b l)) (c : List Token)
+    (hc : certifiedCompletion (toks.take (toks.length - l)) = some c) :
+    l ≤ toks.length ∧ pos = (match toks.drop (toks.length - l) with | t :: _ => t.start | [] => eofPos) ∧
+    ViablePrefix (toks.take (toks.length - l)) ∧ (0 < l → ¬ ViablePrefix (toks.take (toks.length - l + 1))) := by
+  have h0 : parseDocument (initState toks eofPos) = .error (.syntax pos b l) := by
+    unfold parseToks at h
+    split at h
+    · cases h
+    · rename_i e he; cases h; exact he
+  have hb : l ≤ toks.length ∧ pos = (match toks.drop (toks.length - l) with | t :: _ => t.start | [] => eofPos) :=
+    (inferInstance : ErrAt parseDocument).err _ _ _ _ h0
+  exact ⟨hb.1, hb.2,
+    certified_completion_viable _ _ hc, syntax_error_not_later toks eofPos pos b l h⟩
+
+/-- the completion finds, and certifies, what one expects -/
+example : certifiedCompletion [] = some [⟨.braceL, 0, 0, ""⟩, ⟨.name, 0, 0, "a"⟩, ⟨.braceR, 0, 0, ""⟩] := by decide +kernel
+example : (certifiedCompletion [⟨.braceL, 0, 1, ""⟩, ⟨.name, 2, 3, "f"⟩, ⟨.parenL, 3, 4, ""⟩]).map (·.map (·.kind)) =
+    some [.name, .colon, .int, .parenR, .braceR] := by decide +kernel
+example : (certifiedCompletion [⟨.name, 0, 5, "query"⟩, ⟨.parenL, 5, 6, ""⟩, ⟨.dollar, 6, 7, ""⟩, ⟨.name, 7, 8, "v"⟩, ⟨.colon, 8, 9, ""⟩]).map
+    (·.map (·.kind)) = some [.name, .bang, .parenR, .braceL, .name, .braceR] := by decide +kernel
+example : (certifiedCompletion [⟨.name, 0, 4, "type"⟩, ⟨.name, 5, 6, "T"⟩, ⟨.name, 7, 17, "implements"⟩]).isSome = true := by decide +kernel
+/-- `fragment on` is not the beginning of a document: no completion -/
+example : certifiedCompletion [⟨.name, 0, 8, "fragment"⟩, ⟨.name, 9, 11, "on"⟩] = none := by decide +kernel
+
+/-! ### `parser.ParseValue`: the whole clause -/
+
+/-- the clause for `parser.ParseValue`: the reported offset is the start of token `k`, the tokens before it are the
+beginning of a value, with it they are not -/
+theorem value_error_at_first_nonviable_token (c : Bool) (toks : List Token) (eofPos pos : Nat) (b : Bool) (l : Nat)
+    (h : parseValue c (initState toks eofPos) = .error (.syntax pos b l)) :
+    l ≤ toks.length ∧ pos = (match toks.drop (toks.length - l) with | t :: _ => t.start | [] => eofPos) ∧
+    ViableValuePrefix c (toks.take (toks.length - l)) ∧
+    (0 < l → ¬ ViableValuePrefix c (toks.take (toks.length - l + 1))) :=
+  ⟨((inferInstance : ErrAt (parseValue c)).err _ _ _ _ h).1, ((inferInstance : ErrAt (parseValue c)).err _ _ _ _ h).2,
+   parseValue_not_earlier c toks eofPos pos b l h, parseValue_not_later c toks eofPos pos b l h⟩
+
+/-- non-vacuity: `[1 } 2` is rejected at the `}` (offset 3, token 2 of 4: `left = 2`) -/
+example : parseValue false (initState [⟨.bracketL, 0, 1, ""⟩, ⟨.int, 1, 2, "1"⟩, ⟨.braceR, 3, 4, ""⟩, ⟨.int, 5, 6, "2"⟩] 7) =
+    .error (.syntax 3 false 2) := by rfl
+
+/-! ## On bytes: lexer model ∘ parser model -/
+
+/-- `parseBytes` (= `Lexer.lexAll` then M) reports a syntax error that blames a real token (`0 < left`) at the start
+offset of a token `t` of the lexer's output, and the lexer's tokens up to and including `t` are not the beginning of
+any document.  (That `[t.start, t.stop)` is `t`'s lexeme in the bytes is the lexer half's `token_delimits_lexeme_partial`;
+a statement about BYTE continuations would be false — `fragment on` is rejected at `on`, `fragment onx …` is not.) -/
+theorem bytes_syntax_error_not_later (src : Lexer.Bytes) (pos : Nat) (b : Bool) (l : Nat)
+    (h : parseBytes src = .error (.parse (.syntax pos b l))) (hl : 0 < l) :
+    ∃ toks e, splitEOF ((Lexer.lexAll src).tokens.map Lexer.LTok.toToken) = some (toks, e) ∧
+      (Lexer.lexAll src).err = none ∧ l ≤ toks.length ∧
+      (∃ t, toks[toks.length - l]? = some t ∧ pos = t.start) ∧
+      ¬ ViablePrefix (toks.take (toks.length - l + 1)) := by
+  unfold parseBytes at h
+  split at h
+  · cases h
+  · rename_i herr
+    split at h
+    · cases h
+    · rename_i e he
+      cases h
+      unfold parseTokens at he
+      split at he
+      · rename_i toks e hs
+        have h0 : parseDocument (initState toks e.start) = .error (.syntax pos b l) := by
+          unfold parseToks at he
+          split at he
+          · cases he
+          · rename_i e' he'; cases he; exact he'
+        have hb : l ≤ toks.length ∧ pos = (match toks.drop (toks.length - l) with | t :: _ => t.start | [] => e.start) :=
+          (inferInstance : ErrAt parseDocument).err _ _ _ _ h0
+        obtain ⟨hle, hpos⟩ := hb
+        refine ⟨toks, e, hs, herr, hle, ?_, syntax_error_not_later toks e.start pos b l he hl⟩
+        have hlt : toks.length - l < toks.length := by omega
+        refine ⟨toks[toks.length - l], by simp [hlt], ?_⟩
+        rw [List.drop_eq_getElem_cons hlt] at hpos
+        exact hpos
+      · cases he
+        omega
 
 /-! ## Lazy lexing: a parser rejection at token k is reported even if token k+1 is malformed
 
@@ -127,13 +274,12 @@ theorem parser_rejection_before_lexical_error (toks : List Token) (pos : Nat) (b
 theorem lexical_error_reported_iff (toks : List Token) :
     parseLazy toks = .lexError ↔
       ((∃ r, parseDocument (initState toks (freshEOF toks)) = .ok r) ∨
-       (∃ pos b, parseDocument (initState toks (freshEOF toks)) = .error (.syntax pos b 0)) ∨
-       parseDocument (initState toks (freshEOF toks)) = .error .noEOF) := by
+       (∃ pos b, parseDocument (initState toks (freshEOF toks)) = .error (.syntax pos b 0))) := by
   unfold parseLazy
   match hr : parseDocument (initState toks (freshEOF toks)) with
   | .ok r => simp
   | .error (.syntax pos b l) =>
-    simp only [reduceCtorEq, exists_false, false_or, or_false, Except.error.injEq, PErr.syntax.injEq]
+    simp only [reduceCtorEq, exists_false, false_or, Except.error.injEq, PErr.syntax.injEq]
     constructor
     · intro h
       split at h
@@ -143,7 +289,6 @@ theorem lexical_error_reported_iff (toks : List Token) :
     · rintro ⟨pos', b', rfl, rfl, rfl⟩
       simp
   | .error .fuel => simp
-  | .error .noEOF => simp
 
 theorem freshEOF_gt (toks : List Token) : ∀ t ∈ toks, t.start < freshEOF toks := by
   unfold freshEOF
@@ -186,7 +331,6 @@ theorem lazy_syntax_error_at_real_token (toks : List Token) (pos : Nat) (h : par
         exact ⟨t, List.mem_of_mem_drop (by rw [hd]; simp), hpos⟩
     · cases h
   | .error .fuel => simp [hr] at h
-  | .error .noEOF => simp [hr] at h
 
 /-- the lazy-lexing verdict is never "out of fuel" -/
 theorem lazy_never_fuel (toks : List Token) : parseLazy toks ≠ .fuel := by
@@ -196,6 +340,5 @@ theorem lazy_never_fuel (toks : List Token) : parseLazy toks ≠ .fuel := by
   | .error (.syntax p b l) => simp only; split <;> simp
   | .error .fuel =>
     exact absurd hr ((inferInstance : NFb toks.length parseDocument).nf (initState toks (freshEOF toks)) (Nat.le_refl _))
-  | .error .noEOF => simp
 
 end GqlModel.Parser
